@@ -45,7 +45,7 @@ def run_property(prop, tier, scratch, configs=None, repo=None, quiet=False):
     """-> (findings list [Finding with .configs], per-rule stats, errors)"""
     PROPERTIES, RULES = registry()
     pdef = PROPERTIES[prop]
-    configs = configs or (QUICK_CONFIGS if tier == "quick" else THOROUGH_CONFIGS)
+    configs = configs or (pdef.get("configs_quick", QUICK_CONFIGS) if tier == "quick" else THOROUGH_CONFIGS)
     t0 = time.time()
     # facts (parallel)
     paths = {}
@@ -61,9 +61,14 @@ def run_property(prop, tier, scratch, configs=None, repo=None, quiet=False):
         rconfigs = [c for c in configs if rdef.get("configs") is None or c in rdef["configs"]]
         st = {"rule": rname, "instances": {}, "discharged": {}, "functions": 0, "samples": [], "floor": rdef.get("floor", 0),
               "template": rdef.get("template", "")}
+        if rdef.get("multi"):
+            rconfigs = ["+".join(configs)]
         for c in rconfigs:
-            ctx = ctxs[c]
-            res = ctx_cache_run(ctx, rname, rdef, prop)
+            if rdef.get("multi"):
+                res = rdef["fn"](ctxs)
+            else:
+                ctx = ctxs[c]
+                res = ctx_cache_run(ctx, rname, rdef, prop)
             st["instances"][c] = res.instances
             st["discharged"][c] = res.discharged
             st["functions"] = max(st["functions"], len(res.functions))
